@@ -147,7 +147,11 @@ func findIdentViolation(
 	ctx *packageOnlyContext,
 	ident *ast.Ident,
 ) *PackageOnlyViolation {
-	obj := ctx.pass.TypesInfo.ObjectOf(ident)
+	// An embedded field named by a local alias ("struct { A }") defines the field and uses the alias
+	obj := ctx.pass.TypesInfo.Uses[ident]
+	if obj == nil {
+		obj = ctx.pass.TypesInfo.ObjectOf(ident)
+	}
 	if obj == nil {
 		return nil
 	}
